@@ -12,8 +12,8 @@ SPEC = os.path.join(VERIF, "spec")
 HARNESS = os.path.join(VERIF, "harness")
 BUILD = os.path.join(VERIF, ".build")
 WORK = os.path.join(VERIF, ".work")
-EVID = os.path.join(VERIF, "evidence")
-REPLAYS = os.path.join(VERIF, "replays")
+EVID = os.environ.get("VERIF_EVID") or os.path.join(VERIF, "evidence")
+REPLAYS = os.environ.get("VERIF_REPLAYS") or os.path.join(VERIF, "replays")
 GUARD = "PHOTOSPLINE_VERIF"
 
 NCPU = os.cpu_count() or 4
